@@ -81,6 +81,7 @@ def make_minimiser(evaluate):
         engine = v.get('engine')
 
         def fails(c):
+            core.reset_code_state()
             return any(f['oracle'] == oracle for f in evaluate(c, engine))
         small = shrink.shrink_case(case, fails)
         fs = [f for f in evaluate(small, engine) if f['oracle'] == oracle]
